@@ -139,7 +139,10 @@ func oneOf(s string, opts ...string) string {
 // normalize makes any JSON a runnable case (corpus files and replays go through it too).
 func normalize(c *Case) {
 	c.Flavour = oneOf(c.Flavour, flavours...)
-	c.Fault = oneOf(c.Fault, "none", "panic", "perm", "confclose", "inclose")
+	c.Fault = oneOf(c.Fault, "none", "panic", "perm", "confclose", "inclose", "noproducer")
+	if c.Fault == "noproducer" {
+		c.Flavour = "kafka"
+	}
 	if c.Fault == "confclose" && c.Flavour != "rabbitmq" {
 		c.Fault = "panic"
 	}
@@ -920,6 +923,9 @@ func sinceMs(a, b time.Time) int64 { return b.Sub(a).Milliseconds() }
 // runCase drives the real worker once.
 func runCase(c Case) *Obs {
 	normalize(&c)
+	if c.Fault == "noproducer" {
+		return runNoProducer(c)
+	}
 	o := &Obs{}
 	fac := factoryOf(c.Flavour)
 	batches := make([]transport.Batch, len(c.Sizes))
@@ -1407,6 +1413,9 @@ func isTiming(v core.Violation) bool {
 
 func monitor(c Case, o *Obs) []core.Violation {
 	normalize(&c)
+	if c.Fault == "noproducer" {
+		return monitorNoProducer(c, o)
+	}
 	fl := c.Flavour
 	var vs []core.Violation
 	add := func(sig, what string) {
@@ -1628,6 +1637,7 @@ const rule = "corpus first (one directed case per flavour x fault kind), then se
 	"(c) rabbitmq only: the NotifyPublish chan is closed after m acks of batch b with no close notification (nil Confirmation). 2-5 batches of 1-4 records, a third of the healthy batches with 1-3 transient failures inside the budget; " +
 	"half of the cases (e) with every batch already queued in a full input channel before the worker starts, otherwise batches are handed over one by one and the next one stays on offer after the fault; " +
 	"a third with a sibling worker on the same ShutdownHandler and txnsWritten held inside its sink call while the fault strikes. " +
+	"Plus 1 + n/40 kafka cases without a producer (the production factory drops the error of sarama.NewSyncProducer and passes nil on): the worker must raise the signal or die by a panic that leaves StartTransporting, never return or idle silently. " +
 	"Constructors: kinesis/s3 NewTransporterWithInterface, rabbitmq NewTransporter(ConnectionGetter), kafka NewTransporter(sarama.SyncProducer). Retry policy injected where the constructor takes one (kinesis, s3, rabbitmq: WithMaxRetries 0-3 x 1 ms); " +
 	"kafka's constructor takes none (one SendMessages per batch, so no attempt index and no transient failures) and its shutdown sleep is set to 0 through the verif hook. Not covered: panic/failure inside GetConnection/Channel/Confirm (rabbitmq), producer Close errors (kafka), the production retry policies (minutes; see RETRYBUDGET). " +
 	"Non-trivial: the fault struck (or, for a control, every batch was reported) and the run was not skipped; distinct by case JSON. Skipped (fault point not reached in 3 s) cases are counted under skipped:*. " +
@@ -1697,6 +1707,14 @@ func init() {
 		cases := loadCorpus(corpusDir)
 		for i := 0; i < n; i++ {
 			cases = append(cases, genCase(rng, i))
+		}
+		for i := 0; i < 1+n/40; i++ { // drawn after the others
+			c := Case{Flavour: "kafka", Fault: "noproducer", Queued: rng.Intn(2) == 0}
+			for k := 1 + rng.Intn(3); k > 0; k-- {
+				c.Sizes = append(c.Sizes, 1+rng.Intn(4))
+			}
+			normalize(&c)
+			cases = append(cases, c)
 		}
 		seen := map[string]bool{}
 		for _, c := range cases {
